@@ -10,6 +10,10 @@ requests (exact rationals)
      kinds: pop | imean | istd | nscalar | ndiag          (var / tol ignored where not applicable: write `-` / `0`)
      → <param>=<q,…> <param>=err:conv …    (istd / nscalar / ndiag give *variances*)
   probs k=<K> expo=<q,…;q,…>   → p=<q,…>
+  mixstep burn=<0|1> old=… stats=… lat=<name>:<q,…;q,…>|… expo=<q,…;q,…> rules=<param>:<kind>:<var>:<tol>|… [noise fields as for step]
+     the rule set of models/mixture.py: kinds of `step` plus  mmean | mstd | mprobs  (for mprobs `var` is the number of clusters)
+     `lat` = current latent values (n rows), `expo` = n × K exponentials of clamp(-nll_regul_ind_sum_ind, -100) (positive row sums)
+     → as for step; mstd gives *variances*; err:nan / err:inf where torch silently stores nan / inf
 -/
 
 def parseBits (s : String) : Option (List Bool) :=
@@ -33,11 +37,35 @@ def parseRule (item : String) : Option (String × Rule Rat) :=
     else none
   | _ => none
 
+def parseMixRule (item : String) : Option (String × MixRule Rat) :=
+  match item.splitOn ":" with
+  | [pname, kind, var, _] =>
+    if kind == "mmean" then some (pname, .mixMean var)
+    else if kind == "mstd" then some (pname, .mixStd var)
+    else if kind == "mprobs" then (fun k => (pname, MixRule.probs k)) <$> parseNat var
+    else (fun (r : String × Rule Rat) => (r.1, MixRule.base r.2)) <$> parseRule item
+  | _ => none
+
 def fmtRes : Except MErr (List Rat) → String
   | .ok v => fmtList fmtRat v
   | .error .convergence => "err:conv"
   | .error .missing => "err:missing"
   | .error .shape => "err:shape"
+  | .error .nan => "err:nan"
+  | .error .inf => "err:inf"
+
+def parseNoise (args : List String) : Option (Option (NoiseIn Rat × List Nat × Nat)) :=
+  match kv args "ny" with
+  | none => some none
+  | some ys => do
+    let y ← parseList parseRat ys
+    let w ← (kv args "nw") >>= parseBits
+    let yxm ← (kv args "nyxm") >>= parseList parseRat
+    let mxm ← (kv args "nmxm") >>= parseList parseRat
+    let keys ← (kv args "nkeys") >>= parseList parseNat
+    let nft ← (kv args "nft") >>= parseNat
+    if w.length ≠ y.length ∨ yxm.length ≠ y.length ∨ mxm.length ≠ y.length ∨ keys.length ≠ y.length then none
+    else some (some ((⟨y.zip w, yxm.zip w, mxm⟩ : NoiseIn Rat), keys, nft))
 
 def handle (line : String) : String :=
   match line.splitOn " " with
@@ -59,6 +87,19 @@ def handle (line : String) : String :=
           if w.length ≠ y.length ∨ yxm.length ≠ y.length ∨ mxm.length ≠ y.length ∨ keys.length ≠ y.length then none
           else some (some ((⟨y.zip w, yxm.zip w, mxm⟩ : NoiseIn Rat), keys, nft))
       let r := step burn old ⟨named, noise⟩ rules
+      some (" ".intercalate (r.map (fun (p : String × Except MErr (List Rat)) => s!"{p.1}={fmtRes p.2}")))).getD "bad-request"
+  | "mixstep" :: args =>
+    (do
+      let burn ← (kv args "burn") >>= parseBool
+      let old ← (kv args "old") >>= parseNamed (parseList parseRat)
+      let named ← (kv args "stats") >>= parseNamed (parseList2 parseRat)
+      let lat ← (kv args "lat") >>= parseNamed (parseList2 parseRat)
+      let expo ← (kv args "expo") >>= parseList2 parseRat
+      let rules ← (splitNE ((kv args "rules").getD "_") "|").mapM parseMixRule
+      let noise ← parseNoise args
+      -- a softmax row always has a positive sum (its largest exponential is 1) and no negative entry
+      if expo.any (fun w => w.any (fun e => decide (e < 0)) || decide (MStep.sum w ≤ 0)) then none else
+      let r := mixStep burn ⟨old, lat, expo⟩ ⟨named, noise⟩ rules
       some (" ".intercalate (r.map (fun (p : String × Except MErr (List Rat)) => s!"{p.1}={fmtRes p.2}")))).getD "bad-request"
   | "probs" :: args =>
     (do
